@@ -212,7 +212,7 @@ def run(ctx):
     def chk(case):
         check_case(case, ctx)
 
-    ctx.run_hypothesis(case_strategy(), chk, ctx.pick(5, 5), salt="main")
+    ctx.run_hypothesis(case_strategy(), chk, ctx.pick(4, 4), salt="main")
 
 
 def replay(ctx, case):
